@@ -112,6 +112,12 @@ const (
 
 // mixedGraphConfig: 3 services, kind[i][j] over {none,@,!tagged,decorator-on-tag} for every ordered pair incl. i==j.
 func mixedGraphConfig(n int, kind func(i, j int) int) *cfg.Config {
+	return mixedGraphConfigN(n, kind, false)
+}
+
+// mixedGraphConfigN: with sharedNames, tags are named like services (and parameters named like services
+// are referenced next to them), so that a dependency graph keyed by bare names would confuse them.
+func mixedGraphConfigN(n int, kind func(i, j int) int, sharedNames bool) *cfg.Config {
 	c := &cfg.Config{Meta: cfg.Meta{Pkg: cfg.P("gen"), Imports: []cfg.KS{{K: "pa", V: "fixt/pa"}}}}
 	for i := 0; i < n; i++ {
 		c.Services = append(c.Services, cfg.Service{Name: fmt.Sprintf("s%d", i), Constructor: cfg.P("pa.New")})
@@ -124,21 +130,40 @@ func mixedGraphConfig(n int, kind func(i, j int) int) *cfg.Config {
 		}
 		return false
 	}
+	if sharedNames {
+		for i := 0; i < n; i++ {
+			c.Params = append(c.Params, cfg.KV{K: fmt.Sprintf("s%d", i), V: cfg.Int(int64(i))})
+		}
+	}
 	for i := 0; i < n; i++ {
 		for j := 0; j < n; j++ {
 			si, sj := &c.Services[i], &c.Services[j]
+			if sharedNames && kind(i, j) != ckNone {
+				si.Args = append(si.Args, cfg.Str("%"+sj.Name+"%")) // a parameter named like the service, referenced first
+			}
 			switch kind(i, j) {
 			case ckAt:
 				si.Args = append(si.Args, cfg.Str("@"+sj.Name))
 			case ckTagged:
 				t := fmt.Sprintf("t%d", j)
+				if sharedNames {
+					t = sj.Name // the tag is named like the service that carries it
+				}
 				if !hasTag(sj, t) {
 					sj.Tags = append(sj.Tags, cfg.Tag{Name: t})
 				}
 				si.Args = append(si.Args, cfg.Str("!tagged "+t))
 			case ckDecorator:
 				t := fmt.Sprintf("d%d-%d", i, j)
-				si.Tags = append(si.Tags, cfg.Tag{Name: t})
+				if sharedNames {
+					t = fmt.Sprintf("s%d", (i+j+1)%n) // a tag named like some service
+					if t == sj.Name && kind(i, j) == ckTagged {
+						t = fmt.Sprintf("d%d-%d", i, j)
+					}
+				}
+				if !hasTag(si, t) {
+					si.Tags = append(si.Tags, cfg.Tag{Name: t})
+				}
 				c.Decorators = append(c.Decorators, cfg.Decorator{Tag: t, Decorator: "pa.DecSame", Args: []cfg.Val{cfg.Str("@" + sj.Name)}})
 			}
 		}
@@ -194,9 +219,9 @@ func checkC07(c *Ctx) error {
 			picks = append(picks, r.Intn(total))
 		}
 	}
-	for _, m := range picks {
+	for k, m := range picks {
 		mm := m
-		jobs = append(jobs, mixedGraphConfig(3, func(i, j int) int { return (mm >> (2 * (i*3 + j))) & 3 }))
+		jobs = append(jobs, mixedGraphConfigN(3, func(i, j int) int { return (mm >> (2 * (i*3 + j))) & 3 }, k%2 == 1))
 	}
 	c.Set("mixed_kind_graphs_run", len(picks))
 	c.Set("mixed_kind_graph_space", total)
@@ -208,12 +233,12 @@ func checkC07(c *Ctx) error {
 		r := rand.New(rand.NewSource(c.Seed*7 + int64(k)))
 		n := 4 + r.Intn(9)
 		p := 0.05 + r.Float64()*0.15
-		conf := mixedGraphConfig(n, func(i, j int) int {
+		conf := mixedGraphConfigN(n, func(i, j int) int {
 			if r.Float64() < p {
 				return 1 + r.Intn(3)
 			}
 			return ckNone
-		})
+		}, k%2 == 0)
 		np := 3 + r.Intn(8)
 		for i := 0; i < np; i++ {
 			v := "v"
